@@ -333,14 +333,26 @@ impl Prop for C08 {
                 return Verdict::Skip("no-moved-line");
             }
             let mut mapped: Option<(Sgr, Sgr)> = None;
+            let mut mapped_syntax = false;
             if with_map {
                 // map the first rendition (if it can be written as a style string) to a plain target style
                 let (_, st) = map_from.clone().unwrap();
                 if let Some(key) = style_string_for(&st) {
-                    let target = t.ps(&["bold 87 19", "yellow", "italic 200 52", "normal 17"]);
+                    let target = t.ps(&["bold 87 19", "yellow", "italic 200 52", "normal 17", "syntax 52", "syntax bold 19"]);
                     cfg.set("map-styles", &format!("{} => {}", key, target));
                     let truecolor = cfg.get("true-color") == Some("always");
-                    if let Some(spec) = refstyle::parse_style(target, truecolor) {
+                    // `syntax` as the target's foreground: the line is syntax-highlighted over the
+                    // target's background - every character gets a foreground colour from the theme
+                    // (a theme is named, so that there is a highlighter whatever the file is)
+                    let reference = if let Some(rest) = target.strip_prefix("syntax") {
+                        mapped_syntax = true;
+                        cfg.set("syntax-theme", t.ps(&["Monokai Extended", "GitHub", "Dracula"]));
+                        cfg.unset("max-syntax-highlighting-length"); // (beyond it a line is not highlighted)
+                        format!("normal{}", rest)
+                    } else {
+                        target.to_string()
+                    };
+                    if let Some(spec) = refstyle::parse_style(&reference, truecolor) {
                         mapped = Some((st, spec.sgr()));
                     }
                 }
@@ -378,7 +390,23 @@ impl Prop for C08 {
                     _ => m.st,
                 };
                 let n = want_text.chars().count();
+                let by_map = matches!(&mapped, Some((k, _)) if *k == m.st);
                 for (ci, c) in sc.rows[ri].cells.iter().take(n).enumerate() {
+                    if by_map && mapped_syntax {
+                        if n > 300 || c.text.trim().is_empty() {
+                            continue;
+                        }
+                        if c.st.fg == Color::Default || (Sgr { fg: Color::Default, ..c.st }) != want {
+                            return Verdict::Fail(
+                                Failure::new(
+                                    "C08:moved-line-mapped-to-syntax",
+                                    format!("moved {:?} line `{}` (input rendition ESC[{}m) is mapped by map-styles to a `syntax` style: every character must carry a foreground from the syntax theme over {:?}; character {} `{}` is painted {:?}", m.kind, want_text, m.params, want, ci, c.text, c.st),
+                                )
+                                .with(json!({"case": exec::case_json(&cfg, &input), "output_printable": exec::printable(&out[..out.len().min(5000)])})),
+                            );
+                        }
+                        continue;
+                    }
                     if c.st != want {
                         return Verdict::Fail(
                             Failure::new(
@@ -394,6 +422,7 @@ impl Prop for C08 {
             h = fnv_add(h, &cfg.fingerprint().to_le_bytes());
             ctx.nontrivial(h);
             ctx.class_if(mapped.is_some(), "map-styles");
+            ctx.class_if(mapped.is_some() && mapped_syntax, "map-styles-to-syntax");
             if ctx.want_sample() {
                 ctx.sample(json!({"part": 2, "argv": cfg.base_args().iter().filter(|a| !a.contains("-style=")).collect::<Vec<_>>(), "input": exec::printable(&input[..input.len().min(1000)])}));
             }
